@@ -432,7 +432,7 @@ class TGen:
             e = elem_of(t)
             choices = []
             if e is not None:
-                choices += ["First", "Count", "len", "sub0", "Where", "Select", "own", "regop"]
+                choices += ["First", "Count", "len", "sub0", "Where", "Select", "own", "regop", "slice"]
             fields = {k: ft for k, ft in field_types(t).items() if not _has_typevar(ft)}
             if fields:
                 choices += ["field", "fieldsub"] * (1 if t is NS["Info"] else 3)
@@ -466,6 +466,11 @@ class TGen:
                 text, t = f"{text}.First()", e
             elif c == "sub0":
                 text, t = f"{text}[0]", e
+            elif c == "slice":
+                # a part of a sequence is a sequence of the same kind (a slice of a list is a list, of a str a str)
+                self.slices = getattr(self, "slices", 0) + 1
+                self.interesting = True
+                text, t = f"{text}[{r.choice(['0:2', '1:', ':3', '::2', ':'])}]", t
             elif c == "Count":
                 text, t = f"{text}.Count()", int
             elif c == "len":
@@ -678,6 +683,8 @@ def judge_stage(ctx, stream, cur_t, rnd):
         ctx.count("conditionals-with-equal-branch-types")
     if getattr(g, "records_cond", 0):
         ctx.count("conditionals-of-records-with-permuted-fields", g.records_cond)
+    if getattr(g, "slices", 0):
+        ctx.count("slices-of-sequences", g.slices)
     if getattr(g, "bitops", 0):
         ctx.count("bit-operators-on-two-truth-values", g.bitops)
     if getattr(g, "unary", 0):
